@@ -269,9 +269,16 @@ def check(ctx):
                 dnodes = [n for n in g.nodes if n.kind == 'stmt' and isinstance(n.ast, (ast.Assign, ast.AugAssign)) and
                           norm(n.ast.targets[0] if isinstance(n.ast, ast.Assign) else n.ast.target) == it.id]
                 derived = False
+                live_view = False
                 for dn in dnodes:
                     if table in norm(dn.ast.value):
-                        derived = True
+                        # ... a copy, not a view: `d.values()` / `d.items()` / the table itself is empty once the table is cleared
+                        from .c07 import is_snapshot as _is_snapshot
+                        v_ = dn.ast.value
+                        derived = _is_snapshot(v_) or isinstance(v_, (ast.List, ast.Tuple, ast.SetComp, ast.DictComp)) or \
+                            (isinstance(v_, ast.BinOp) and isinstance(v_.op, ast.Add)) or (isinstance(dn.ast, ast.AugAssign))
+                        if not derived:
+                            live_view = True
                     for lp in [x for x in g.nodes if x.kind == 'for' and norm(x.ast.iter).startswith(table)]:
                         if dn.id in {b.id for b in g.loop_body_nodes(lp)} and any(
                                 isinstance(v, ast.Name) and v.id in norm(dn.ast.value) for v in ast.walk(lp.ast.target)):
@@ -282,7 +289,7 @@ def check(ctx):
                     inner = [x for x in g.nodes if x.kind == 'for' and outer and norm(x.ast.iter) == norm(outer[0].ast.target) and n_.id in {b.id for b in g.loop_body_nodes(x)}]
                     if outer and inner and norm(c_.args[0]) == norm(inner[0].ast.target) and g.fact_keys_at(n_) == g.fact_keys_at(outer[0]) and g.path_avoiding(cnode, [n_]) is None:
                         derived = True
-                okl = bool(dnodes) and derived and all(g.path_avoiding(cnode, [dn]) is None for dn in dnodes)
+                okl = bool(dnodes) and derived and not live_view and all(g.path_avoiding(cnode, [dn]) is None for dn in dnodes)
                 # ... and that takes whole queues: no element selection (requests[0]) and no filter other than emptiness
                 for dn in dnodes:
                     parts = [x for x in ast.walk(dn.ast.value) if isinstance(x, ast.Subscript) and not norm(x.value).startswith('self.')]
